@@ -33,7 +33,8 @@ CONSTANTS Bnds,        \* set of boundaries (byte sequences)
                        \*   "restart0"   matcher restarts at 0 (not 1) when the mismatching byte is CR
                        \*   "dropprefix" a partial match pending at a chunk edge is forgotten
                        \*   "limitge"    part limit compared with >= instead of >
-                       \*   "eofanywhere" closing CRLF need not end the chunk
+                       \*   "swallow"    empty header block not recognised: the parser looks for the next CRLFCRLF
+                       \*                (behaviour before the fix "content of a part without headers was partly swallowed")
 
 VARIABLE s
 vars == <<s>>
@@ -82,7 +83,8 @@ Step(x0, b, last) ==
       [] x.st = "minus"  -> IF b = 45 THEN Finish([x EXCEPT !.st = "eof_cr"], "more", last) ELSE Err(x, 400)
       [] x.st = "eof_cr" -> IF b = 13 THEN Finish([x EXCEPT !.st = "eof_lf"], "more", last) ELSE Err(x, 400)
       [] x.st = "eof_lf" -> IF b = 10 /\ (last \/ Mut = "eofanywhere") THEN Finish(x, "eof", last) ELSE Err(x, 400)
-      [] x.st = "lf"     -> IF b = 10 THEN Finish([x EXCEPT !.st = "hdr", !.pos = 0, !.hdr = <<>>], "more", last) ELSE Err(x, 400)
+      [] x.st = "lf"     -> IF b = 10 THEN Finish([x EXCEPT !.st = "hdr", !.pos = IF Mut = "swallow" THEN 0 ELSE 2, !.hdr = <<>>], "more", last)
+                            ELSE Err(x, 400)      \* the CRLF of the delimiter line is the first half of the CRLFCRLF that ends the headers
       [] x.st = "hdr" ->
            LET h == Append(x.hdr, b)
                p == IF b = CRLFCRLF[x.pos + 1] THEN x.pos + 1 ELSE 0
@@ -108,7 +110,8 @@ RECURSIVE Run(_, _)
 Run(x, bytes) == IF bytes = <<>> THEN x ELSE Run(Step(x, bytes[1], FALSE), Tail(bytes))
 
 Init == \E bnd \in Bnds : \E p \in Prefixes[bnd] : \E fl \in FieldLimits :
-            s = Run(S0(bnd, fl), p)
+            LET r == Run(S0(bnd, fl), p)            \* starting inside a header block (6 symbols offered): one free byte less
+            IN s = [r EXCEPT !.free = IF r.st = "hdr" THEN 1 ELSE 0]
 
 \* the declared length is fixed lazily: the step that feeds byte number n may declare n to be the
 \* length (the byte then ends its chunk); with DeclSlack the peer may also stop one byte short
@@ -126,7 +129,7 @@ Next == (\E b \in Alphabet \cup {72} : \E last, fin \in BOOLEAN : Feed(b, last, 
 Spec == Init /\ [][Next]_vars
 
 \* ---------------------------------------------------------------- property
-HdrOK(h) == LET ls == LinesOf(h) IN Len(ls) >= 1 /\ \A i \in 1..Len(ls) : LineOK(ls[i])
+HdrOK(h) == LET ls == LinesOf(h) IN \A i \in 1..Len(ls) : LineOK(ls[i])     \* zero lines: a part without headers
 
 \* what the body means: [ok, parts]
 Meaning(body, bnd) ==
@@ -136,8 +139,7 @@ Meaning(body, bnd) ==
 Complete == Len(s.body) = s.decl
 TooBig(m) == \E i \in 1..Len(m.parts) : Len(m.parts[i].data) > s.flimit
 
-\* the headerless quirk of the code (reported through Leg B) is kept out of Leg D's claim
-InScope == ~Headerless(s.body, s.bnd)
+InScope == TRUE
 
 Exact ==
     (s.status = 200 /\ InScope) =>
@@ -176,5 +178,6 @@ StdPrefixes == [bnd \in BndsAll |->
                   { <<>>,                          \* whole bodies from the first byte
                     Open(bnd),                     \* inside the content of part 1
                     Open(bnd) \o Delim(bnd),       \* right after the delimiter that closes part 1
+                    Open(bnd) \o Delim(bnd) \o CRLF,  \* at the start of the header block of part 2
                     Open(bnd) \o <<120>> \o Again(bnd) }]   \* inside the content of part 2
 =============================================================================
